@@ -401,6 +401,22 @@ static void exec_cloudkey(const Plan &p, RunResult &r) {
         // the h = 0 key-switching rows are public constants: the trivial zero sample
         for (int i = 0; i < kk->n && !r.v.set; i++) for (int j = 0; j < kk->t; j++) { const LweSample &z = kk->ks[i][j][0]; bool zero = z.b == 0; for (uint64_t q = 0; q < n && zero; q++) zero = z.a[q] == 0; if (!zero) { r.v.raise("not-public-material", "C17.h0-rows", "a key-switching row for digit 0 is not the trivial zero sample"); break; } }
     }
+    // --- a row whose mask is constant (all zero: a "noiseless trivial" sample) carries its message in the clear: for the key-switching rows
+    //     (h >= 1) that message is a ring-key coefficient times a public constant, for the bootstrapping rows an LWE key bit.  A fresh
+    //     uniform mask is constant with probability 2^-32(n-1).
+    if (!r.v.set) {
+        const LweKeySwitchKey *kk = kc->ck->bk->ks;
+        if (n >= 2) for (int i = 0; i < kk->n && !r.v.set; i++) for (int j = 0; j < kk->t && !r.v.set; j++) for (int h = 1; h < kk->base; h++) {
+            const LweSample &smp = kk->ks[i][j][h]; bool constant = true; for (uint64_t q = 1; q < n && constant; q++) constant = smp.a[q] == smp.a[0];
+            if (constant) { r.v.raise("secret-in-cloud-export", "C17.trivial-row", fmt("key-switching row (%d,%d,%d) has a constant mask (%d): its body carries ring-key coefficient %d times a public constant in the clear", i, j, h, smp.a[0], i)); break; }
+        }
+        const LweBootstrappingKey *bk = kc->ck->bk;
+        for (uint64_t i = 0; i < n && !r.v.set; i++) for (uint64_t q = 0; q < kpl && !r.v.set; q++) for (uint64_t u = 0; u < k; u++) {
+            const int32_t *cf = bk->bk[i].all_sample[q].a[u].coefsT; bool constant = true; for (uint64_t jj = 1; jj < N && constant; jj++) constant = cf[jj] == cf[0];
+            if (constant) { r.v.raise("secret-in-cloud-export", "C17.trivial-row", fmt("bootstrapping-key row (%llu,%llu) has a constant mask polynomial: LWE key bit %llu is readable from its body", (unsigned long long) i, (unsigned long long) q, (unsigned long long) i)); break; }
+        }
+        r.probes.add("key_rows_checked_for_trivial_masks");
+    }
     // --- strict prefix of the secret key set export
     if (!(S.bytes.size() > C.bytes.size() && memcmp(S.bytes.data(), C.bytes.data(), C.bytes.size()) == 0))
         r.v.raise("prefix", "C17.prefix", fmt("cloud export (%zu bytes) is not a strict prefix of the secret key set export (%zu bytes)", C.bytes.size(), S.bytes.size()));
